@@ -25,6 +25,20 @@ fn push_near(v: &mut Vec<u32>, c: u32, r: u32) {
     }
 }
 
+/// Every scalar at (+-1) the first or last member of a range of the regex crate's \d, \w, \s tables.
+pub fn class_table_boundaries(k: &Classes) -> Vec<char> {
+    let mut v: Vec<u32> = vec![];
+    for cls in [&k.d, &k.w, &k.s] {
+        for r in cls.ranges() {
+            push_near(&mut v, r.start() as u32, 1);
+            push_near(&mut v, r.end() as u32, 1);
+        }
+    }
+    v.sort_unstable();
+    v.dedup();
+    v.into_iter().filter_map(char::from_u32).collect()
+}
+
 /// Quick: every scalar at (+-1) a boundary of the regex crate's \d \w \s tables, every scalar with a
 /// non-trivial simple case folding or std case mapping (+-1), +-2 around the escape-width boundaries and
 /// the surrogate gap, and the first scalar of every 256-block. Thorough: all 1,112,064 scalars.
